@@ -6,7 +6,7 @@
 -/
 import HL.Lemmas.Refresh
 namespace HL.Lemmas.Update
-open HL.Index HL.Workspace HL.Lemmas.AList HL.Lemmas.Reach HL.Lemmas.Edges HL.Lemmas.Index
+open HL.Index HL.Workspace HL.Lemmas.AList HL.Lemmas.ReachIdx HL.Lemmas.Edges HL.Lemmas.Index
 open HL.Lemmas.WsInv HL.Lemmas.Refresh HL.Spec.Rebuild
 
 structure WInv (cfg : Cfg) (fs : FS) (w : WS) : Prop where
